@@ -1,5 +1,7 @@
 import NucleoVerif.Model.Matcher
 import NucleoVerif.Spec.Matcher
+import NucleoVerif.Lemmas.DP
+import NucleoVerif.Props.C16
 /-! # C02 — reported indices are a valid witness of the match
 
 Status: the specification predicates are unfolded to their mathematical content
@@ -108,5 +110,100 @@ theorem C02_calculateScore_indices (cfg : Cfg) (ext : Ext) (hrep : Rep) (h n : L
 /-- a failed match reports nothing: the model's result type carries indices only inside `some` -/
 theorem C02_none_no_indices (r : MRes) (h : r = none) : (r.map (·.2)).getD [] = [] := by
   subst h; rfl
+
+open DP
+
+/-! ## the optimal matcher's recurrence -/
+
+theorem pairwise_zip_drop : ∀ (l : List Nat), l.Pairwise (· < ·) → ∀ p ∈ l.zip (l.drop 1), p.1 < p.2 := by
+  intro l
+  induction l with
+  | nil => intro _ p hp; simp at hp
+  | cons a t ih =>
+    intro hpw p hp
+    have hpw' := List.pairwise_cons.mp hpw
+    cases t with
+    | nil => simp at hp
+    | cons b t' =>
+      simp only [List.drop_succ_cons, List.drop_zero, List.zip_cons_cons, List.mem_cons] at hp
+      rcases hp with hp | hp
+      · subst hp; exact hpw'.1 b (by simp)
+      · exact ih hpw'.2 p (by simpa using hp)
+
+/-- a strictly increasing in-range index list whose normalized characters spell the needle is a valid witness -/
+theorem validWitness_of_spells (cfg : Cfg) (hrep : Rep) (h n path : List Nat)
+    (hr : hrep = .ascii → ∀ c ∈ h, c < 128)
+    (hpw : path.Pairwise (· < ·)) (hin : ∀ x ∈ path, x < h.length) (hsp : path.map (chAt cfg hrep h) = n) :
+    validWitnessB cfg hrep h n path = true := by
+  rw [validWitnessB_iff]
+  refine ⟨by rw [← hsp]; simp, pairwise_zip_drop path hpw, ?_⟩
+  intro p hp
+  rw [← hsp] at hp
+  -- p = (x, chAt x) for some x ∈ path
+  have : ∃ x ∈ path, p = (x, chAt cfg hrep h x) := by
+    rw [List.zip_map_right] at hp
+    simp only [List.mem_map] at hp
+    obtain ⟨q, hq, rfl⟩ := hp
+    have := List.of_mem_zip hq
+    have hq2 : q.1 = q.2 := by
+      clear this
+      -- elements of l.zip l are diagonal
+      have diag : ∀ (l : List Nat) (q : Nat × Nat), q ∈ l.zip l → q.1 = q.2 := by
+        intro l
+        induction l with
+        | nil => intro q hq; simp at hq
+        | cons a t ih =>
+          intro q hq
+          simp only [List.zip_cons_cons, List.mem_cons] at hq
+          rcases hq with rfl | hq
+          · rfl
+          · exact ih q hq
+      exact diag path q hq
+    exact ⟨q.1, this.1, by simp [Prod.map, hq2]⟩
+  obtain ⟨x, hx, rfl⟩ := this
+  have hlt := hin x hx
+  refine ⟨h[x], List.getElem?_eq_getElem hlt, ?_⟩
+  simp only [chAt, List.getElem?_eq_getElem hlt, Option.map_some, Option.getD_some]
+  exact (C16_cnorm_eq_norm cfg hrep h[x] (fun e => hr e _ (List.getElem_mem hlt))).symm
+
+
+/-- **the alignment reported by the optimal matcher's recurrence spells the needle**: one index per needle
+    character, and the (normalized) haystack character at the k-th index is the k-th needle character —
+    for every configuration, haystack, needle, window and prefix-preference setting -/
+theorem C02_optimalDP_spells_needle (cfg : Cfg) (ext : Ext) (hrep : Rep) (h n : List Nat) (start end_ : Nat)
+    (sc : Nat) (path : List Nat) (hres : optimalDP cfg ext hrep h n start end_ = some (sc, path)) :
+    path.map (chAt cfg hrep h) = n := by
+  unfold optimalDP at hres
+  cases n with
+  | nil => simp at hres
+  | cons n0 ns =>
+    simp only at hres
+    split at hres
+    · cases hres
+    · generalize hcols : windowCols cfg ext hrep h start end_ = cols at hres
+      cases hb : bestCell (allRows cols ns (firstRow n0 cols (prefixStart cfg start))) none with
+      | none => rw [hb] at hres; cases hres
+      | some c =>
+        rw [hb] at hres
+        simp only [Option.map_some, Option.some.injEq, Prod.mk.injEq] at hres
+        obtain ⟨_, hpath⟩ := hres
+        have colsch : ∀ c ∈ cols, chAt cfg hrep h c.idx = c.ch := by
+          rw [← hcols]; exact windowCols_ch cfg ext hrep h start end_
+        have rowch := allRows_ch (chAt cfg hrep h) cols colsch ns [n0] (firstRow n0 cols (prefixStart cfg start)) (firstRow_ch (chAt cfg hrep h) n0 cols (prefixStart cfg start) colsch)
+        rcases bestCell_mem _ _ _ hb with e | ⟨k, hk⟩
+        · cases e
+        · rw [← hpath]; exact rowch k c hk
+
+
+/-- **the alignment reported by the optimal matcher's recurrence is a valid witness** (one index per needle
+    character, strictly increasing, inside the haystack, each haystack character normalizing to its needle
+    character) — every configuration with prefix preference off, haystack, needle and window -/
+theorem C02_optimalDP_valid_witness (cfg : Cfg) (ext : Ext) (hrep : Rep) (h n : List Nat) (start end_ : Nat)
+    (hr : hrep = .ascii → ∀ c ∈ h, c < 128) (hpp : cfg.preferPrefix = false) (sc : Nat) (path : List Nat)
+    (hres : optimalDP cfg ext hrep h n start end_ = some (sc, path)) :
+    validWitnessB cfg hrep h n path = true ∧ ∀ x ∈ path, start ≤ x := by
+  have inv := DP.optimalDP_eq_alignScore cfg ext hrep h n start end_ hpp sc path hres
+  exact ⟨validWitness_of_spells cfg hrep h n path hr inv.2.1 (fun x hx => (inv.2.2 x hx).2)
+    (C02_optimalDP_spells_needle cfg ext hrep h n start end_ sc path hres), fun x hx => (inv.2.2 x hx).1⟩
 
 end NucleoVerif
